@@ -99,7 +99,7 @@ type effect struct {
 	locked  bool
 	pos     token.Pos // the writing instruction
 	what    string
-	via     string // call chain
+	via     string        // call chain
 	fn      *ssa.Function // function containing the writing instruction
 }
 
